@@ -38,6 +38,7 @@ type Fault struct {
 	J      uint32   `json:"j,omitempty"`      // torn-write selector (0 = whole-operation crash)
 	Errno  string   `json:"errno,omitempty"`  // EIO | EACCES | ENOSPC
 	Nested []uint32 `json:"nested,omitempty"` // further crashes during successive resumes
+	Edge   bool     `json:"edge_bias,omitempty"` // crash positions are drawn among the operations of the edge phase
 	Neg    string   `json:"neg,omitempty"`    // negative-resume variant
 	NegArg uint32   `json:"neg_arg,omitempty"`
 }
@@ -78,6 +79,23 @@ func gen(r *rand.Rand) WL {
 		}
 		w.Fault.Neg = negVariants[r.IntN(len(negVariants))]
 		w.Fault.NegArg = r.Uint32()
+		if r.IntN(4) == 0 {
+			// repeated interruptions inside the edge phase of a graph with several edge fragments
+			w.DB = stor.GenDB(r, 1, 4, 0)
+			g := &w.DB.Graphs[0]
+			if len(g.Nodes) == 0 {
+				g.Nodes = []stor.NodeSpec{{ID: 3}, {ID: 9}}
+			}
+			for i := 0; i < 4+r.IntN(5); i++ {
+				g.Rels = append(g.Rels, stor.RelSpec{ID: uint64(2 + 3*i), Start: g.Nodes[r.IntN(len(g.Nodes))].ID, End: g.Nodes[r.IntN(len(g.Nodes))].ID, Kind: "E", Props: map[string]any{"seq": float64(i)}})
+			}
+			w.Opts.Shard, w.Opts.Batch = 1+r.IntN(2), 1+r.IntN(3)
+			w.Fault.Edge, w.Fault.Neg = true, ""
+			w.Fault.Nested = []uint32{r.Uint32()}
+			if r.IntN(2) == 0 {
+				w.Fault.Nested = append(w.Fault.Nested, r.Uint32())
+			}
+		}
 	case x < 15:
 		w.Fault.Kind = "fail"
 		w.Fault.Errno = []string{"EIO", "EACCES", "ENOSPC"}[r.IntN(3)]
@@ -270,19 +288,33 @@ func (r *runner) dump(ctx context.Context, src *simdb.DB, targets []retriever.Gr
 // dryResumeOps runs a fault-free resume on a copy of the current image and reports how many
 // mutating operations it performs; the image itself is left untouched.
 func (r *runner) dryResumeOps(targets []retriever.GraphTarget) int {
+	return len(r.dryResumeLog(targets))
+}
+
+func edgeOps(log []simos.Op) []int {
+	var idx []int
+	for i, op := range log {
+		if strings.Contains(op.Path, "edges-") || (strings.Contains(op.Path, "checkpoint") && i > len(log)/2) {
+			idx = append(idx, i+1)
+		}
+	}
+	return idx
+}
+
+func (r *runner) dryResumeLog(targets []retriever.GraphTarget) []simos.Op {
 	if !exists(r.out) {
-		return 1
+		return nil
 	}
 	save := r.out + ".saved"
 	os.RemoveAll(save)
 	if err := stor.CopyTree(r.out, save); err != nil {
-		return 1
+		return nil
 	}
-	_, rep := r.dump(context.Background(), stor.Build(r.w.DB), targets, "simdb", r.opts(true), simos.Plan{})
+	_, rep := r.dump(context.Background(), stor.Build(r.w.DB), targets, "simdb", r.opts(true), simos.Plan{Log: true})
 	os.RemoveAll(r.out)
 	os.Rename(save, r.out)
 	r.evals++
-	return max(1, rep.Ops)
+	return rep.Log
 }
 
 // applyNegative edits options / source / image; returns false when the variant does not apply.
@@ -452,8 +484,11 @@ func (r *runner) crashRun(k, j int, nested []uint32, neg string, negArg uint32) 
 		pre := stor.SnapshotDir(r.out)
 		ck, hadCk := r.readCheckpoint()
 		// how many operations would this resume perform? (dry run on a copy of the image)
-		n2 := r.dryResumeOps(targets)
-		kk := 1 + int(nk)%max(1, n2)
+		dry := r.dryResumeLog(targets)
+		kk := 1 + int(nk)%max(1, len(dry))
+		if e := edgeOps(dry); r.w.Fault.Edge && len(e) > 0 {
+			kk = e[int(nk)%len(e)]
+		}
 		err, rep2 := r.dump(ctx, stor.Build(r.w.DB), targets, "simdb", r.opts(true), simos.Plan{FreezeBefore: kk})
 		r.evals++
 		ntag := fmt.Sprintf("%s; resume #%d crashed at its op %d (%s)", tag, ni+1, kk, rep2.FrozenAt)
@@ -657,6 +692,9 @@ func exec(t *testing.T, w WL, cfg simrt.Config) simh.Outcome {
 		o.Counters["full_sweeps"]++
 	case "crash":
 		k := 1 + int(w.Fault.K)%len(r.refLog)
+		if e := edgeOps(r.refLog); w.Fault.Edge && len(e) > 0 {
+			k = e[int(w.Fault.K)%len(e)]
+		}
 		j := 0
 		if w.Fault.J > 0 && r.refLog[k-1].Kind == "write" && r.refLog[k-1].Bytes > 1 {
 			j = 1 + int(w.Fault.J)%(r.refLog[k-1].Bytes-1)
